@@ -10,15 +10,23 @@ rationals); the property files prove that the hand-written model uses exactly th
 the generated table and breaks one of those proof obligations at `lake build`.
 
 The translator reads the source with `ast` only (nothing is imported or executed).
+
+Second output (same run): lean/PyGam/Gen/Formulas.lean — the STRAIGHT-LINE ARITHMETIC functions of pyGAM (link /
+inverse link / link gradient, variance functions, deviances, `Distribution.phi`, the PIRLS weight and pseudo data, the
+closed-form model statistics) translated into Lean definitions over the same notation classes as the hand-written
+models; the property files prove (`gen_formula_*` theorems) that each generated definition IS the model definition.
+See the section "Formulas" below for the supported Python subset and the translation rules.
 """
 import ast
 import os
+import re
 import sys
 from fractions import Fraction
 
 REPO = os.environ.get('PYGAM_REPO', '/repo')
 HERE = os.path.dirname(os.path.dirname(os.path.abspath(__file__)))
 OUT = os.path.join(HERE, 'lean', 'PyGam', 'Gen', 'Tables.lean')
+OUT_FORMULAS = os.path.join(HERE, 'lean', 'PyGam', 'Gen', 'Formulas.lean')
 
 
 def parse(name):
@@ -170,7 +178,7 @@ def pirls_locals(fn):
     return sorted(set(names + start)), sorted(set(end))
 
 
-def main():
+def tables_main():
     pen = parse('penalties.py')
     links = parse('links.py')
     dists = parse('distributions.py')
@@ -273,6 +281,980 @@ def main():
             fh.write(text)
         print('translate: wrote', os.path.relpath(OUT, HERE))
     return 0
+
+
+# ---------------------------------------------------------------------------------------------------------
+# Formulas: translation of straight-line arithmetic functions into lean/PyGam/Gen/Formulas.lean
+# ---------------------------------------------------------------------------------------------------------
+# Supported Python subset (anything else makes the function "untranslatable": a placeholder of type
+# `Gen.Untranslatable "<reason>"` is emitted, so that the tie theorem of that function fails to build with a
+# readable message; the translator itself never fails on a source it can parse):
+#   * names (parameters, locals), numeric literals, `True` / `False` / `None`
+#   * unary minus, `not`, `+ - * /`, comparisons `< <= > >=` (a Bool used as a number is `if c then 1 else 0`)
+#   * `x ** c` with a literal exponent c in {-3, -2, -1, -0.5, 0.5, 1, 2, 3}:
+#         1/(x*x*x), 1/(x*x), 1/x, 1/sqrt x, sqrt x, x, x*x, x*x*x   (as documented in Model/Links.lean)
+#   * `np.log`, `np.exp`, `np.sqrt`; `np.ones_like(x)` = 1
+#   * identities: `np.asarray(x, …)`, `x.astype(…)`, `sp.sparse.diags(x)` (a diagonal matrix is its diagonal)
+#   * attribute reads that the function's spec maps to a parameter (`dist.levels`, `getattr(dist, 'levels', 1)`,
+#     `self.scale`, `self._known_scale`, `self.statistics_['edof']`, …)
+#   * calls that the spec maps to a function parameter (`self.link.gradient(mu, self.distribution)` ↦ `linkGrad mu`, …)
+#     and the helper `ylogydu` (↦ the hand-written `PyGam.ylogydu`: its masked assignment is not straight-line)
+#   * reductions over the one vector length `n` of a function whose spec declares vector parameters:
+#     `np.sum(v)`, `v.sum()` ↦ `sumTo n (fun i => …)`, `len(v)`, `v.shape[0]` ↦ `natTo n`, `v.mean()`
+#   * statements: docstring, `x = e`, `x op= e`, `d = OrderedDict()` / `d[<str>] = e` (returned as a tuple in
+#     insertion order), `if <Bool expression>: … else: …` (the rest of the body is continued in both branches),
+#     `return e`, `return (e1, e2)`
+#   * skipped, and listed in the doc comment of the definition: argument guards `if …: raise …` and argument
+#     defaulting `if p is None: p = …` (the definition is for supplied arguments)
+# Vectorised NumPy code is elementwise: functions whose spec declares scalar parameters are translated as ONE scalar
+# expression.  Locals are inlined (the models are written that way).
+
+FORMULA_LEAN_KEYWORDS = {
+    'fun', 'at', 'from', 'end', 'do', 'then', 'else', 'if', 'let', 'have', 'show', 'in', 'with', 'match', 'def', 'theorem',
+    'by', 'where', 'structure', 'class', 'instance', 'open', 'namespace', 'section', 'variable', 'universe', 'import',
+    'Type', 'Prop', 'Sort', 'true', 'false', 'none', 'some', 'i', 'n', 'α', 'sumTo', 'natTo', 'ylogydu', 'forall', 'exists',
+    'mut', 'for', 'return', 'try', 'catch', 'finally', 'unless', 'using', 'calc', 'set_option', 'deriving', 'extends',
+    'macro', 'syntax', 'notation', 'infix', 'infixl', 'infixr', 'prefix', 'postfix', 'abbrev', 'axiom', 'example',
+    'inductive', 'mutual', 'private', 'protected', 'noncomputable', 'partial', 'unsafe', 'attribute', 'local', 'scoped',
+    'nomatch', 'nofun', 'fun', 'suffices', 'obtain', 'Nat', 'Bool', 'Option', 'List', 'String', 'PyGam', 'ExpLog', 'HasLogSqrt',
+    'Gen', 'Untranslatable', 'decide', 'ite', 'dite', 'id', 'Decidable',
+}
+
+
+class Unsupported(Exception):
+    pass
+
+
+class Val(object):
+    """a translated value: type tag + expression tree
+    S scalar, V vector entry (expression in the bound index `i`), B Bool, VB Bool vector entry, O optional scalar,
+    T tuple, R record (ordered dict under construction), D the distribution object, X an argument the translation ignores"""
+    __slots__ = ('t', 'e')
+
+    def __init__(self, t, e):
+        self.t, self.e = t, e
+
+
+def _num(k):
+    return ('num', int(k))
+
+
+def _lit(v):
+    """numeric literal -> expression (non-negative part; the sign is a separate `neg`)"""
+    if isinstance(v, bool):
+        raise Unsupported('boolean used as a numeric literal')
+    if isinstance(v, int):
+        if v < 0:
+            return ('neg', _lit(-v))
+        return _num(v)
+    if isinstance(v, float):
+        if v != v or v in (float('inf'), float('-inf')):
+            raise Unsupported('non-finite literal %r' % v)
+        if v < 0:
+            return ('neg', _lit(-v))
+        if v == int(v) and abs(v) < 2 ** 53:
+            return _num(int(v))
+        from decimal import Decimal
+        sign, digits, exp = Decimal(repr(v)).as_tuple()
+        numer = int(''.join(str(d) for d in digits))
+        if exp >= 0:
+            return _num(numer * 10 ** exp)
+        return ('div', ('nat', numer), ('nat', 10 ** (-exp)))      # 1.4 ↦ natTo 14 / natTo 10 (decimal digits as written)
+    raise Unsupported('literal %r' % (v,))
+
+
+def _static_number(node):
+    """value of a literal exponent: Constant or -Constant"""
+    if isinstance(node, ast.Constant) and isinstance(node.value, (int, float)) and not isinstance(node.value, bool):
+        return node.value
+    if isinstance(node, ast.UnaryOp) and isinstance(node.op, ast.USub):
+        v = _static_number(node.operand)
+        return None if v is None else -v
+    if isinstance(node, ast.UnaryOp) and isinstance(node.op, ast.UAdd):
+        return _static_number(node.operand)
+    return None
+
+
+class FormulaSpec(object):
+    """what to translate and how its free attribute reads / opaque calls become Lean parameters
+
+    name    : Lean name of the generated definition
+    ctx     : 'links' (ExpLog: exp, log, sqrt) | 'dists' | 'gam' (HasLogSqrt: log, sqrt)
+    locate  : (file, class or None, function, inner function or None)
+    pre     : Lean binders placed before the Python parameters: list of (name, Lean type)
+    params  : roles of the Python parameters after `self`, by position: 'S' 'V' 'B' 'X' (ignored) 'D' (distribution object)
+    attrs   : canonical path -> (type tag, Lean binder name)        e.g. 'dist.levels' -> ('S', 'levels')
+    callees : canonical path -> dict(kind='fn', lean=…, sig=[…], use=[…], defaults={…}, vec=bool, ret='S')
+                              | dict(kind='value', t='V', lean=…)     (the whole call is a parameter)
+    self_param : True when the first Python parameter is `self`
+    """
+
+    def __init__(self, name, ctx, locate, pre, params, attrs=None, callees=None, self_param=True, what=None):
+        self.name, self.ctx, self.locate, self.pre, self.params = name, ctx, locate, pre, params
+        self.attrs = attrs or {}
+        self.callees = callees or {}
+        self.self_param = self_param
+        self.what = what
+
+
+class FormulaTranslator(object):
+    def __init__(self, spec, fn):
+        self.spec = spec
+        self.fn = fn
+        self.notes = []
+        self.has_vec = any(r == 'V' for r in spec.params) or any(t.startswith('Nat →') or '(Nat →' in t for _, t in spec.pre)
+        self.optional_vars = set()
+        self.roots = {}
+        self.binders = []       # Lean binders of the Python parameters: (name, type)
+        self.env0 = {}
+
+    # -- set-up -----------------------------------------------------------------------------------------
+    def setup(self):
+        fn, spec = self.fn, self.spec
+        a = fn.args
+        if a.vararg or a.kwonlyargs or a.posonlyargs:
+            raise Unsupported('parameter list uses * / keyword-only / positional-only arguments')
+        names = [x.arg for x in a.args]
+        if spec.self_param:
+            if not names:
+                raise Unsupported('no `self` parameter')
+            self.roots[names[0]] = 'self'
+            names = names[1:]
+        # **kwargs of decorator wrappers is allowed and ignored (role list says so)
+        if len(names) != len(spec.params):
+            raise Unsupported('signature changed: parameters %s, expected %d of them (roles %s)' % (names, len(spec.params), spec.params))
+        taken = set(p for p, _ in spec.pre) | FORMULA_LEAN_KEYWORDS
+        for nm, role in zip(names, spec.params):
+            if role == 'D':
+                self.roots[nm] = 'dist'
+                self.env0[nm] = Val('D', None)
+                continue
+            if role == 'X':
+                self.env0[nm] = Val('X', None)
+                continue
+            ln = re.sub(r'[^A-Za-z0-9_]', '_', nm)          # Python identifiers may be non-ASCII
+            if not re.match(r'^[A-Za-z_]', ln):
+                ln = 'x_' + ln
+            while ln in taken:                              # Lean keyword / clash with a binder of the spec
+                ln = ln + '_'
+            taken.add(ln)
+            if role == 'S':
+                self.binders.append((ln, 'α'))
+                self.env0[nm] = Val('S', ('var', ln))
+            elif role == 'V':
+                self.binders.append((ln, 'Nat → α'))
+                self.env0[nm] = Val('V', ('idx', ln))
+            elif role == 'B':
+                self.binders.append((ln, 'Bool'))
+                self.env0[nm] = Val('B', ('bvar', ln))
+            else:
+                raise Unsupported('bad role %r' % role)
+        # names assigned the constant None somewhere are Option-valued
+        for n in ast.walk(fn):
+            if isinstance(n, ast.Assign) and isinstance(n.value, ast.Constant) and n.value.value is None:
+                for t in n.targets:
+                    if isinstance(t, ast.Name):
+                        self.optional_vars.add(t.id)
+
+    # -- canonical dotted path of an expression --------------------------------------------------------------
+    def path(self, node, env):
+        if isinstance(node, ast.Name):
+            if node.id in self.roots:
+                return self.roots[node.id]
+            if node.id in env:
+                return None
+            return node.id
+        if isinstance(node, ast.Attribute):
+            p = self.path(node.value, env)
+            return None if p is None else p + '.' + node.attr
+        if isinstance(node, ast.Subscript):
+            p = self.path(node.value, env)
+            k = node.slice
+            if p is not None and isinstance(k, ast.Constant) and isinstance(k.value, str):
+                return "%s['%s']" % (p, k.value)
+            return None
+        if isinstance(node, ast.Call) and isinstance(node.func, ast.Name) and node.func.id == 'getattr' and len(node.args) in (2, 3) \
+                and isinstance(node.args[1], ast.Constant) and isinstance(node.args[1].value, str) and not node.keywords:
+            p = self.path(node.args[0], env)
+            return None if p is None else p + '.' + node.args[1].value
+        return None
+
+    def src(self, node):
+        try:
+            s = ast.unparse(node)
+        except Exception:
+            s = '<%s>' % type(node).__name__
+        s = ' '.join(s.split())
+        return (s[:90] + '…') if len(s) > 91 else s
+
+    # -- numbers -------------------------------------------------------------------------------------------
+    def as_number(self, v, node):
+        """S or V value; Bool (vector) is coerced like NumPy does: True = 1, False = 0"""
+        if v.t in ('S', 'V'):
+            return v
+        if v.t == 'B':
+            return Val('S', ('ite', v.e, _num(1), _num(0)))
+        if v.t == 'VB':
+            return Val('V', ('ite', v.e, _num(1), _num(0)))
+        raise Unsupported('`%s` (line %d) is not a number (%s)' % (self.src(node), node.lineno, v.t))
+
+    def math(self, op):
+        cls = 'ExpLog' if self.spec.ctx == 'links' else 'HasLogSqrt'
+        if op == 'exp' and cls != 'ExpLog':
+            raise Unsupported('np.exp is not available to this group of functions (class HasLogSqrt has log and sqrt only)')
+        return cls + '.' + op
+
+    def power(self, base, c, node):
+        x = base.e
+        one = _num(1)
+        table = {
+            -1: lambda: ('div', one, x),
+            -2: lambda: ('div', one, ('mul', x, x)),
+            -3: lambda: ('div', one, ('mul', ('mul', x, x), x)),
+            -0.5: lambda: ('div', one, ('call', self.math('sqrt'), [x])),
+            0.5: lambda: ('call', self.math('sqrt'), [x]),
+            1: lambda: x,
+            2: lambda: ('mul', x, x),
+            3: lambda: ('mul', ('mul', x, x), x),
+        }
+        for k, f in table.items():
+            if c == k:
+                return Val(base.t, f())
+        raise Unsupported('`%s` (line %d): exponent %r is not one of -3, -2, -1, -0.5, 0.5, 1, 2, 3' % (self.src(node), node.lineno, c))
+
+    # -- expressions ---------------------------------------------------------------------------------------
+    def expr(self, node, env):
+        spec = self.spec
+        if isinstance(node, ast.Constant):
+            v = node.value
+            if v is None:
+                return Val('O', ('none',))
+            if isinstance(v, bool):
+                return Val('B', ('btrue',) if v else ('bfalse',))
+            if isinstance(v, (int, float)):
+                return Val('S', _lit(v))
+            raise Unsupported('literal `%s` (line %d)' % (self.src(node), node.lineno))
+        if isinstance(node, ast.Name):
+            if node.id in env:
+                v = env[node.id]
+                if v is None:
+                    raise Unsupported('`%s` (line %d) may be unbound' % (node.id, node.lineno))
+                return v
+            raise Unsupported('unknown name `%s` (line %d)' % (node.id, node.lineno))
+        if isinstance(node, ast.Tuple):
+            return Val('T', [self.expr(e, env) for e in node.elts])
+        if isinstance(node, ast.UnaryOp):
+            if isinstance(node.op, ast.USub):
+                v = self.as_number(self.expr(node.operand, env), node.operand)
+                return Val(v.t, ('neg', v.e))
+            if isinstance(node.op, ast.UAdd):
+                return self.as_number(self.expr(node.operand, env), node.operand)
+            if isinstance(node.op, ast.Not):
+                v = self.expr(node.operand, env)
+                if v.t not in ('B', 'VB'):
+                    raise Unsupported('`not` of a non-Boolean `%s` (line %d)' % (self.src(node.operand), node.lineno))
+                return Val(v.t, ('not', v.e))
+            raise Unsupported('operator in `%s` (line %d)' % (self.src(node), node.lineno))
+        if isinstance(node, ast.BinOp):
+            if isinstance(node.op, ast.Pow):
+                c = _static_number(node.right)
+                if c is None:
+                    raise Unsupported('`%s` (line %d): the exponent is not a literal' % (self.src(node), node.lineno))
+                return self.power(self.as_number(self.expr(node.left, env), node.left), c, node)
+            ops = {ast.Add: 'add', ast.Sub: 'sub', ast.Mult: 'mul', ast.Div: 'div'}
+            for k, nm in ops.items():
+                if isinstance(node.op, k):
+                    l = self.as_number(self.expr(node.left, env), node.left)
+                    r = self.as_number(self.expr(node.right, env), node.right)
+                    return Val('V' if 'V' in (l.t, r.t) else 'S', (nm, l.e, r.e))
+            raise Unsupported('operator in `%s` (line %d)' % (self.src(node), node.lineno))
+        if isinstance(node, ast.Compare):
+            if len(node.ops) != 1:
+                raise Unsupported('chained comparison `%s` (line %d)' % (self.src(node), node.lineno))
+            l = self.as_number(self.expr(node.left, env), node.left)
+            r = self.as_number(self.expr(node.comparators[0], env), node.comparators[0])
+            t = 'VB' if 'V' in (l.t, r.t) else 'B'
+            op = node.ops[0]
+            if isinstance(op, ast.Lt):
+                return Val(t, ('lt', l.e, r.e))
+            if isinstance(op, ast.Gt):
+                return Val(t, ('lt', r.e, l.e))      # a > b  is  b < a
+            if isinstance(op, ast.LtE):
+                return Val(t, ('le', l.e, r.e))
+            if isinstance(op, ast.GtE):
+                return Val(t, ('le', r.e, l.e))
+            raise Unsupported('comparison `%s` (line %d)' % (self.src(node), node.lineno))
+        if isinstance(node, (ast.Attribute, ast.Subscript)) or (isinstance(node, ast.Call) and isinstance(node.func, ast.Name) and node.func.id == 'getattr'):
+            # v.shape[0]
+            if isinstance(node, ast.Subscript) and isinstance(node.value, ast.Attribute) and node.value.attr == 'shape' \
+                    and isinstance(node.slice, ast.Constant) and node.slice.value == 0:
+                v = self.expr(node.value.value, env)
+                if v.t not in ('V', 'VB'):
+                    raise Unsupported('`%s` (line %d): shape of a non-vector' % (self.src(node), node.lineno))
+                return Val('S', ('natTo',))
+            p = self.path(node, env)
+            if p is not None and p in spec.attrs and (spec.attrs[p][0] == 'D' or spec.attrs[p][1] in [b for b, _ in spec.pre]):
+                t, ln = spec.attrs[p]
+                if t == 'S':
+                    return Val('S', ('var', ln))
+                if t == 'B':
+                    return Val('B', ('bvar', ln))
+                if t == 'D':
+                    return Val('D', None)
+                if t == 'V':
+                    return Val('V', ('idx', ln))
+            raise Unsupported('`%s` (line %d) is not a read this translation knows' % (self.src(node), node.lineno))
+        if isinstance(node, ast.Call):
+            return self.call(node, env)
+        raise Unsupported('expression `%s` (line %d)' % (self.src(node), getattr(node, 'lineno', 0)))
+
+    def call(self, node, env):
+        spec = self.spec
+        f = node.func
+        p = self.path(f, env)
+        nargs, kws = node.args, node.keywords
+        if any(isinstance(a, ast.Starred) for a in nargs):
+            raise Unsupported('`%s` (line %d): starred argument' % (self.src(node), node.lineno))
+        # method calls on translated values:  v.sum()  v.mean()  v.astype(…)
+        if p is None and isinstance(f, ast.Attribute):
+            recv = self.expr(f.value, env)
+            if f.attr == 'astype' and recv.t in ('S', 'V'):
+                return recv
+            if f.attr == 'sum' and not nargs and not kws:
+                return self.reduce_sum(recv, node)
+            if f.attr == 'mean' and not nargs and not kws:
+                s = self.reduce_sum(recv, node)
+                return Val('S', ('div', s.e, ('natTo',)))
+            raise Unsupported('method call `%s` (line %d)' % (self.src(node), node.lineno))
+        if p is None:
+            raise Unsupported('call `%s` (line %d)' % (self.src(node), node.lineno))
+        # spec-declared callees first
+        if p in spec.callees:
+            return self.spec_call(p, spec.callees[p], node, env)
+        star_kw = [k for k in kws if k.arg is None]
+        if star_kw:
+            raise Unsupported('`%s` (line %d): ** argument' % (self.src(node), node.lineno))
+        if p in ('np.log', 'np.exp', 'np.sqrt', 'numpy.log', 'numpy.exp', 'numpy.sqrt'):
+            if len(nargs) != 1 or kws:
+                raise Unsupported('`%s` (line %d): expected one argument' % (self.src(node), node.lineno))
+            v = self.as_number(self.expr(nargs[0], env), nargs[0])
+            return Val(v.t, ('call', self.math(p.split('.')[1]), [v.e]))
+        if p in ('np.ones_like', 'numpy.ones_like'):
+            if len(nargs) != 1 or kws:
+                raise Unsupported('`%s` (line %d): expected one argument' % (self.src(node), node.lineno))
+            self.as_number(self.expr(nargs[0], env), nargs[0])
+            return Val('S', _num(1))
+        if p in ('np.asarray', 'numpy.asarray'):
+            if len(nargs) != 1 or any(k.arg != 'dtype' for k in kws):
+                raise Unsupported('`%s` (line %d): expected np.asarray(x, dtype=…)' % (self.src(node), node.lineno))
+            return self.expr(nargs[0], env)
+        if p in ('sp.sparse.diags', 'scipy.sparse.diags'):
+            if len(nargs) != 1 or kws:
+                raise Unsupported('`%s` (line %d): expected one argument' % (self.src(node), node.lineno))
+            return self.as_number(self.expr(nargs[0], env), nargs[0])
+        if p in ('np.sum', 'numpy.sum'):
+            if len(nargs) != 1 or kws:
+                raise Unsupported('`%s` (line %d): expected one argument' % (self.src(node), node.lineno))
+            return self.reduce_sum(self.expr(nargs[0], env), node)
+        if p == 'len':
+            if len(nargs) != 1 or kws:
+                raise Unsupported('`%s` (line %d)' % (self.src(node), node.lineno))
+            v = self.expr(nargs[0], env)
+            if v.t not in ('V', 'VB'):
+                raise Unsupported('`%s` (line %d): len of a non-vector' % (self.src(node), node.lineno))
+            return Val('S', ('natTo',))
+        if p in ('ylogydu', 'utils.ylogydu', 'pygam.utils.ylogydu'):
+            if len(nargs) != 2 or kws:
+                raise Unsupported('`%s` (line %d): expected two arguments' % (self.src(node), node.lineno))
+            if spec.ctx == 'links':
+                raise Unsupported('ylogydu is not available to the link functions')
+            a = self.as_number(self.expr(nargs[0], env), nargs[0])
+            b = self.as_number(self.expr(nargs[1], env), nargs[1])
+            return Val('V' if 'V' in (a.t, b.t) else 'S', ('call', 'PyGam.ylogydu', [a.e, b.e]))
+        if p in ('OrderedDict', 'dict', 'collections.OrderedDict') and not nargs and not kws:
+            return Val('R', [])
+        raise Unsupported('call of `%s` (line %d) is outside the translated subset' % (self.src(f), node.lineno))
+
+    def reduce_sum(self, v, node):
+        v = self.as_number(v, node) if v.t in ('B', 'VB') else v
+        if v.t != 'V':
+            raise Unsupported('`%s` (line %d): sum of a non-vector' % (self.src(node), node.lineno))
+        return Val('S', ('sum', v.e))
+
+    def spec_call(self, p, cs, node, env):
+        if cs['kind'] == 'value':
+            t = cs['t']
+            return Val(t, ('idx', cs['lean']) if t == 'V' else ('var', cs['lean']))
+        sig = cs['sig']
+        bound = {}
+        if len(node.args) > len(sig):
+            raise Unsupported('`%s` (line %d): too many arguments' % (self.src(node), node.lineno))
+        for nm, a in zip(sig, node.args):
+            bound[nm] = a
+        for k in node.keywords:
+            if k.arg is None:
+                if cs.get('ignore_star_kwargs'):
+                    continue
+                raise Unsupported('`%s` (line %d): ** argument' % (self.src(node), node.lineno))
+            if k.arg not in sig or k.arg in bound:
+                raise Unsupported('`%s` (line %d): unexpected argument %s' % (self.src(node), node.lineno, k.arg))
+            bound[k.arg] = k.value
+        args = []
+        anyvec = False
+        for nm in sig:
+            want = cs['use'].get(nm)          # None: ignored argument (must be the dist object / self / an ignored parameter)
+            if nm not in bound:
+                if nm in cs.get('defaults', {}):
+                    if want is not None:
+                        args.append((want, cs['defaults'][nm]))
+                    continue
+                raise Unsupported('`%s` (line %d): argument %s missing' % (self.src(node), node.lineno, nm))
+            if want is None:
+                a = bound[nm]
+                ok = False
+                if isinstance(a, ast.Name) and self.roots.get(a.id) == 'self':
+                    ok = True
+                else:
+                    v = self.expr(a, env)
+                    ok = v.t in ('D', 'X')
+                if not ok:
+                    raise Unsupported('`%s` (line %d): argument %s is not the expected object' % (self.src(node), node.lineno, nm))
+                continue
+            v = self.expr(bound[nm], env)
+            if want == 'B':
+                if v.t != 'B':
+                    raise Unsupported('`%s` (line %d): argument %s must be a Bool' % (self.src(node), node.lineno, nm))
+                args.append(('B', v.e))
+            elif want == 'E':                  # elementwise numeric argument
+                v = self.as_number(v, bound[nm])
+                anyvec = anyvec or v.t == 'V'
+                args.append(('E', v.e))
+            elif want == 'W':                  # whole vector (a scalar is broadcast: the constant vector)
+                v = self.as_number(v, bound[nm])
+                args.append(('W', v.e) if v.t == 'V' else ('WC', v.e))
+            else:
+                raise Unsupported('bad callee spec')
+        rendered = []
+        for kind, e in args:
+            if kind == 'W':
+                rendered.append(('lam', e))
+            elif kind == 'WC':
+                rendered.append(('lamc', e))
+            elif kind == 'B':
+                rendered.append(('boolterm', e))
+            else:
+                rendered.append(e)
+        ret = cs.get('ret', 'E')
+        if ret == 'E':
+            return Val('V' if anyvec else 'S', ('call', cs['lean'], rendered))
+        return Val(ret, ('call', cs['lean'], rendered))
+
+    # -- statements (continuation style: the rest of the body is run in both branches of an `if`) ------------------
+    def block(self, stmts, env, depth=0):
+        if depth > 12:
+            raise Unsupported('branches nested too deeply')
+        env = dict(env)
+        for k, s in enumerate(stmts):
+            if isinstance(s, ast.Expr) and isinstance(s.value, ast.Constant) and isinstance(s.value.value, str):
+                continue                                  # docstring / string statement
+            if isinstance(s, ast.Pass):
+                continue
+            if isinstance(s, ast.Return):
+                if s.value is None:
+                    raise Unsupported('bare return (line %d)' % s.lineno)
+                return self.expr(s.value, env)
+            if isinstance(s, ast.Assign):
+                if len(s.targets) != 1:
+                    raise Unsupported('chained assignment (line %d)' % s.lineno)
+                t = s.targets[0]
+                if isinstance(t, ast.Name):
+                    if t.id in self.roots:
+                        raise Unsupported('assignment to `%s` (line %d)' % (t.id, s.lineno))
+                    v = self.expr(s.value, env)
+                    if t.id in self.optional_vars and v.t == 'S':
+                        v = Val('O', ('some', v.e))
+                    env[t.id] = v
+                    continue
+                if isinstance(t, ast.Subscript) and isinstance(t.value, ast.Name) and t.value.id in env \
+                        and env[t.value.id] is not None and env[t.value.id].t == 'R' \
+                        and isinstance(t.slice, ast.Constant) and isinstance(t.slice.value, str):
+                    v = self.expr(s.value, env)
+                    if v.t != 'S':
+                        raise Unsupported('record entry `%s` (line %d) is not a scalar' % (self.src(t), s.lineno))
+                    rec = [kv for kv in env[t.value.id].e if kv[0] != t.slice.value] + [(t.slice.value, v)]
+                    env[t.value.id] = Val('R', rec)
+                    continue
+                raise Unsupported('assignment target `%s` (line %d)' % (self.src(t), s.lineno))
+            if isinstance(s, ast.AugAssign):
+                if not isinstance(s.target, ast.Name) or s.target.id not in env:
+                    raise Unsupported('augmented assignment to `%s` (line %d)' % (self.src(s.target), s.lineno))
+                fake = ast.BinOp(left=ast.Name(id=s.target.id, ctx=ast.Load(), lineno=s.lineno, col_offset=0), op=s.op, right=s.value,
+                                 lineno=s.lineno, col_offset=0)
+                env[s.target.id] = self.expr(fake, env)
+                continue
+            if isinstance(s, ast.If):
+                # guard:  if …: raise …
+                if not s.orelse and len(s.body) == 1 and isinstance(s.body[0], ast.Raise):
+                    self.notes.append('guard `if %s: raise …` (line %d) not translated' % (self.src(s.test), s.lineno))
+                    continue
+                # defaulting:  if p is None: p = …
+                tst = s.test
+                if not s.orelse and isinstance(tst, ast.Compare) and len(tst.ops) == 1 and isinstance(tst.ops[0], ast.Is) \
+                        and isinstance(tst.comparators[0], ast.Constant) and tst.comparators[0].value is None \
+                        and len(s.body) == 1 and isinstance(s.body[0], ast.Assign) and len(s.body[0].targets) == 1 \
+                        and ast.dump(s.body[0].targets[0]).replace('Store()', 'Load()') == ast.dump(tst.left).replace('Store()', 'Load()'):
+                    subj = tst.left
+                    is_param = isinstance(subj, ast.Name) and subj.id in self.env0
+                    is_read = self.path(subj, env) in self.spec.attrs
+                    if is_param or is_read:
+                        self.notes.append('defaulting `if %s is None: …` (line %d) not translated' % (self.src(subj), s.lineno))
+                        continue
+                c = self.expr(s.test, env)
+                if c.t != 'B':
+                    raise Unsupported('`if %s:` (line %d): the condition is not a Boolean parameter / expression' % (self.src(s.test), s.lineno))
+                rest = stmts[k + 1:]
+                r1 = self.block(list(s.body) + rest, env, depth + 1)
+                r2 = self.block(list(s.orelse) + rest, env, depth + 1)
+                return self.merge(c, r1, r2, s)
+            raise Unsupported('statement `%s` (line %d)' % (self.src(s).split(':')[0], s.lineno))
+        raise Unsupported('a path through the function does not end in `return <expression>`')
+
+    def merge(self, c, a, b, s):
+        if a.t == 'R' and b.t == 'R':
+            a, b = self.finish(a), self.finish(b)
+        if a.t == 'T' and b.t == 'T' and len(a.e) == len(b.e):
+            # keep the tuple inside the branches (as the models do): if c then (a1, a2) else (b1, b2)
+            ts = []
+            for x, y in zip(a.e, b.e):
+                if x.t == y.t:
+                    ts.append(x.t)
+                elif set((x.t, y.t)) == set(('S', 'O')):
+                    ts.append('O')
+                else:
+                    raise Unsupported('`if` (line %d): branch results of different kinds' % s.lineno)
+            lift = lambda v, t: Val('O', ('some', v.e)) if (t == 'O' and v.t == 'S') else v
+            a = Val('T', [lift(x, t) for x, t in zip(a.e, ts)])
+            b = Val('T', [lift(x, t) for x, t in zip(b.e, ts)])
+            if self.dump(a) == self.dump(b):
+                return a
+            return Val('TI', (c.e, a, b))
+        if set((a.t, b.t)) == set(('S', 'O')):
+            a = Val('O', ('some', a.e)) if a.t == 'S' else a
+            b = Val('O', ('some', b.e)) if b.t == 'S' else b
+        if a.t != b.t or a.t not in ('S', 'V', 'O', 'B'):
+            raise Unsupported('`if` (line %d): branch results of different kinds (%s, %s)' % (s.lineno, a.t, b.t))
+        if a.e == b.e:
+            return a
+        if a.t == 'B':
+            raise Unsupported('`if` (line %d): Boolean-valued branches' % s.lineno)
+        return Val(a.t, ('ite', c.e, a.e, b.e))
+
+    def dump(self, v):
+        if v.t in ('T',):
+            return ('T', [self.dump(x) for x in v.e])
+        if v.t == 'TI':
+            return ('TI', v.e[0], self.dump(v.e[1]), self.dump(v.e[2]))
+        return (v.t, v.e)
+
+    def finish(self, v):
+        """a returned record becomes the tuple of its values in insertion order"""
+        if v.t == 'R':
+            if not v.e:
+                raise Unsupported('empty record returned')
+            self.record_keys = [k for k, _ in v.e]
+            return Val('T', [x for _, x in v.e])
+        return v
+
+    # -- rendering ------------------------------------------------------------------------------------------
+    def R(self, e, prec=0):
+        """Lean text of an expression tree; prec: 0 top, 65 additive operand, 70 multiplicative operand, 1024 argument"""
+        k = e[0]
+        def par(s, p):
+            return '(' + s + ')' if prec > p else s
+        if k == 'var':
+            return e[1]
+        if k == 'idx':
+            return par('%s i' % e[1], 1023)
+        if k == 'num':
+            n = e[1]
+            if n == 0:
+                return '0'
+            if n == 1:
+                return '1'
+            if n <= 16:
+                return '(' + ' + '.join(['1'] * n) + ')'
+            return par('natTo %d' % n, 1023)
+        if k == 'nat':
+            return par('natTo %d' % e[1], 1023)
+        if k == 'natTo':
+            return par('natTo n', 1023)
+        if k == 'neg':
+            return '(-' + self.R(e[1], 75) + ')'
+        if k in ('add', 'sub'):
+            return par(self.R(e[1], 65) + (' + ' if k == 'add' else ' - ') + self.R(e[2], 66), 65)
+        if k in ('mul', 'div'):
+            return par(self.R(e[1], 70) + (' * ' if k == 'mul' else ' / ') + self.R(e[2], 71), 70)
+        if k == 'call':
+            return par(e[1] + ''.join(' ' + self.R(a, 1024) for a in e[2]), 1023)
+        if k == 'lam':
+            return '(fun i => ' + self.R(e[1], 0) + ')'
+        if k == 'lamc':
+            return '(fun _ => ' + self.R(e[1], 0) + ')'
+        if k == 'boolterm':
+            return self.Bterm(e[1], 1024)
+        if k == 'sum':
+            return par('sumTo n (fun i => ' + self.R(e[1], 0) + ')', 1023)
+        if k == 'ite':
+            return '(if ' + self.C(e[1]) + ' then ' + self.R(e[2], 0) + ' else ' + self.R(e[3], 0) + ')' if prec > 0 else \
+                   'if ' + self.C(e[1]) + ' then ' + self.R(e[2], 0) + ' else ' + self.R(e[3], 0)
+        if k == 'none':
+            return 'none'
+        if k == 'some':
+            return par('some ' + self.R(e[1], 1024), 1023)
+        raise Unsupported('internal: cannot render %r' % (k,))
+
+    def is_boolterm(self, c):
+        return c[0] in ('bvar', 'btrue', 'bfalse') or (c[0] == 'not' and self.is_boolterm(c[1]))
+
+    def Bterm(self, c, prec=0):
+        """a Bool-valued Lean term"""
+        if c[0] == 'bvar':
+            return c[1]
+        if c[0] == 'btrue':
+            return 'true'
+        if c[0] == 'bfalse':
+            return 'false'
+        if c[0] == 'not' and self.is_boolterm(c[1]):
+            return '(!' + self.Bterm(c[1], 1024) + ')'
+        return '(decide (' + self.C(c) + '))'
+
+    def C(self, c):
+        """a condition after `if`"""
+        if self.is_boolterm(c):
+            return self.Bterm(c)
+        if c[0] == 'lt':
+            return self.R(c[1], 51) + ' < ' + self.R(c[2], 51)
+        if c[0] == 'le':
+            return self.R(c[1], 51) + ' ≤ ' + self.R(c[2], 51)
+        if c[0] == 'not':
+            return '¬ (' + self.C(c[1]) + ')'
+        raise Unsupported('internal: cannot render condition %r' % (c[0],))
+
+    def RV(self, v, ind='  '):
+        """Lean text of a returned value; top-level branches and tuple components go on lines of their own"""
+        if v.t == 'T':
+            return '(' + (',\n' + ind + ' ').join(self.RV(x, ind + ' ') for x in v.e) + ')'
+        if v.t == 'TI':
+            return 'if ' + self.C(v.e[0]) + ' then\n' + ind + '  ' + self.RV(v.e[1], ind + '  ') + '\n' + ind + 'else\n' + ind + '  ' + self.RV(v.e[2], ind + '  ')
+        if v.t == 'B':
+            return self.Bterm(v.e)
+        if v.e[0] == 'ite':
+            return 'if ' + self.C(v.e[1]) + ' then\n' + ind + '  ' + self.RV(Val(v.t, v.e[2]), ind + '  ') + '\n' + ind + 'else\n' + ind + '  ' \
+                   + self.RV(Val(v.t, v.e[3]), ind + '  ')
+        return self.R(v.e, 0)
+
+    def ltype(self, v):
+        if v.t == 'S':
+            return 'α'
+        if v.t == 'O':
+            return 'Option α'
+        if v.t == 'B':
+            return 'Bool'
+        if v.t == 'T':
+            return ' × '.join(('(' + self.ltype(x) + ')') if x.t in ('T', 'TI') else self.ltype(x) for x in v.e)
+        if v.t == 'TI':
+            return self.ltype(v.e[1])
+        raise Unsupported('the function returns a %s' % {'V': 'vector where one scalar expression per entry was expected',
+                                                         'VB': 'Boolean vector', 'D': 'distribution object',
+                                                         'X': 'value outside the translation', 'R': 'record'}.get(v.t, v.t))
+
+    def translate(self):
+        self.setup()
+        v = self.finish(self.block(self.fn.body, self.env0))
+        if v.t == 'V':
+            if self.has_vec:
+                raise Unsupported('the function returns a vector')
+        ty = self.ltype(v)          # first: rejects results that are not numbers / options / tuples of them
+        body = self.RV(v)
+        binders = list(self.spec.pre)
+        if self.has_vec and not any(nm == 'n' for nm, _ in binders):
+            binders.append(('n', 'Nat'))
+        binders += self.binders
+        return binders, ty, body
+
+
+def _group_binders(binders):
+    out, i = [], 0
+    while i < len(binders):
+        j = i
+        while j + 1 < len(binders) and binders[j + 1][1] == binders[i][1]:
+            j += 1
+        out.append('(%s : %s)' % (' '.join(b[0] for b in binders[i:j + 1]), binders[i][1]))
+        i = j + 1
+    return ' '.join(out)
+
+
+def _doc(s):
+    return s.replace('-/', '- /').replace('/-', '/ -')
+
+
+def locate_function(trees, loc):
+    """-> (FunctionDef or None, description, decorator names)"""
+    fname, cls, func, inner = loc
+    tree = trees.get(fname)
+    if tree is None:
+        return None, 'pygam/%s cannot be parsed' % fname, []
+    scope = tree
+    label = func
+    if cls is not None:
+        scope = find_class(tree, cls)
+        label = '%s.%s' % (cls, func)
+        if scope is None:
+            return None, 'class %s not found in pygam/%s' % (cls, fname), []
+    fn = find_func(scope, func)
+    if fn is None:
+        return None, '%s not found in pygam/%s' % (label, fname), []
+    decos = []
+    for d in fn.decorator_list:
+        try:
+            decos.append(ast.unparse(d))
+        except Exception:
+            decos.append('?')
+    if inner is not None:
+        # decorator: the nested function that the outer one returns
+        ret = [s for s in fn.body if isinstance(s, ast.Return)]
+        inner_fn = None
+        if len(ret) == 1 and isinstance(ret[0].value, ast.Name):
+            inner_fn = find_func(fn, ret[0].value.id)
+        if inner_fn is None:
+            return None, '%s does not return a nested function' % label, decos
+        if len(fn.args.args) != 1:
+            return None, '%s does not take exactly one function' % label, decos
+        inner_fn._wrapped_name = fn.args.args[0].arg
+        return inner_fn, '%s (wrapper `%s`)' % (label, inner_fn.name), decos
+    return fn, label, decos
+
+
+def registry_classes(tree, name):
+    """{key: class name} of a module-level `NAME = {'key': Class, …}`"""
+    if tree is None:
+        return {}
+    for n in tree.body:
+        if isinstance(n, ast.Assign) and len(n.targets) == 1 and isinstance(n.targets[0], ast.Name) and n.targets[0].id == name \
+                and isinstance(n.value, ast.Dict):
+            out = {}
+            for k, v in zip(n.value.keys, n.value.values):
+                if isinstance(k, ast.Constant) and isinstance(k.value, str) and isinstance(v, ast.Name):
+                    out[k.value] = v.id
+            return out
+    return {}
+
+
+LINK_KEYS = [('identity', 'identity'), ('log', 'log'), ('logit', 'logit'), ('inverse', 'inverse'), ('inv_squared', 'invSquared')]
+FAMILY_KEYS = [('normal', 'normal'), ('binomial', 'binomial'), ('poisson', 'poisson'), ('gamma', 'gamma'), ('inv_gauss', 'invGauss')]
+
+# only the instances a definition uses become its arguments, so one generous list per group is enough; the link group has
+# `ExpLog` (exp, log, sqrt), the other two `HasLogSqrt` (log, sqrt) — as the models they are compared with
+FORMULA_VARIABLES = {
+    'links': 'variable {α : Type} [Zero α] [One α] [Add α] [Sub α] [Mul α] [Div α] [Neg α] [LE α] [LT α] [DecidableLE α] [DecidableLT α]\n'
+             '  [ExpLog α]',
+    'dists': 'variable {α : Type} [Zero α] [One α] [Add α] [Sub α] [Mul α] [Div α] [Neg α] [LE α] [LT α] [DecidableLE α] [DecidableLT α]\n'
+             '  [HasLogSqrt α]',
+}
+FORMULA_VARIABLES['gam'] = FORMULA_VARIABLES['dists']
+
+
+def formula_specs(trees):
+    specs = []
+    links = registry_classes(trees.get('links.py'), 'LINKS')
+    for key, suffix in LINK_KEYS:
+        cls = links.get(key, '<no class registered under %r in LINKS>' % key)
+        for func, prefix in (('link', 'link'), ('mu', 'linkInv'), ('gradient', 'linkGrad')):
+            specs.append(FormulaSpec('%s_%s' % (prefix, suffix), 'links', ('links.py', cls, func, None),
+                                     pre=[('levels', 'α')], params=['S', 'D'], attrs={'dist.levels': ('S', 'levels')}))
+    dists = registry_classes(trees.get('distributions.py'), 'DISTRIBUTIONS')
+    dattrs = {'self.levels': ('S', 'levels'), 'self.scale': ('S', 'scale')}
+    for key, suffix in FAMILY_KEYS:
+        cls = dists.get(key, '<no class registered under %r in DISTRIBUTIONS>' % key)
+        specs.append(FormulaSpec('V_%s' % suffix, 'dists', ('distributions.py', cls, 'V', None),
+                                 pre=[('levels', 'α')], params=['S'], attrs=dattrs))
+    for key, suffix in FAMILY_KEYS:
+        cls = dists.get(key, '<no class registered under %r in DISTRIBUTIONS>' % key)
+        specs.append(FormulaSpec('deviance_%s' % suffix, 'dists', ('distributions.py', cls, 'deviance', None),
+                                 pre=[('levels', 'α'), ('scale', 'α')], params=['S', 'S', 'B'], attrs=dattrs))
+    # the two decorators: `multiplied(self, y, mu, weights=None, **kwargs)`, `divided(self, mu, weights=None, **kwargs)`
+    specs.append(FormulaSpec('multiply_weights', 'dists', ('distributions.py', None, 'multiply_weights', 'inner'),
+                             pre=[('inner', 'α')], params=['X', 'X', 'S'], attrs={},
+                             callees={'@wrapped': dict(kind='value', t='S', lean='inner')},
+                             what='the undecorated result is the parameter `inner`'))
+    specs.append(FormulaSpec('divide_weights', 'dists', ('distributions.py', None, 'divide_weights', 'inner'),
+                             pre=[('inner', 'α')], params=['X', 'S'], attrs={},
+                             callees={'@wrapped': dict(kind='value', t='S', lean='inner')},
+                             what='the undecorated result is the parameter `inner`'))
+    specs.append(FormulaSpec('phi', 'dists', ('distributions.py', 'Distribution', 'phi', None),
+                             pre=[('V', 'α → α'), ('known_scale', 'Bool'), ('scale', 'α')], params=['V', 'V', 'S', 'V'],
+                             attrs={'self.scale': ('S', 'scale'), 'self._known_scale': ('B', 'known_scale')},
+                             callees={'self.V': dict(kind='fn', lean='V', sig=['mu'], use={'mu': 'E'})},
+                             what='`self.V` is the parameter `V` (called without weights)'))
+    gam_attrs = {'self.distribution': ('D', None), 'self.distribution.scale': ('S', 'scale'),
+                 'self.distribution._known_scale': ('B', 'known_scale'), 'self.expectile': ('S', 'expectile'),
+                 "self.statistics_['edof']": ('S', 'edof'), "self.statistics_['AIC']": ('S', 'aic')}
+    grad = dict(kind='fn', lean='linkGrad', sig=['mu', 'dist'], use={'mu': 'E'})
+    linv = dict(kind='fn', lean='linkInv', sig=['lp', 'dist'], use={'lp': 'E'})
+    varf = dict(kind='fn', lean='V', sig=['mu'], use={'mu': 'E'})
+    dev = dict(kind='fn', lean='deviance', sig=['y', 'mu', 'weights', 'scaled'], use={'y': 'E', 'mu': 'E', 'weights': 'E', 'scaled': 'B'},
+               defaults={'weights': _num(1), 'scaled': ('btrue',)})
+    ll = dict(kind='fn', lean='loglikelihood', sig=['y', 'mu', 'weights'], use={'y': 'W', 'mu': 'W', 'weights': 'W'}, ret='S')
+    vec = 'Nat → α'
+    specs.append(FormulaSpec('W_GAM', 'gam', ('pygam.py', 'GAM', '_W', None),
+                             pre=[('linkGrad', 'α → α'), ('V', 'α → α')], params=['S', 'S', 'S'], attrs=gam_attrs,
+                             callees={'self.link.gradient': grad, 'self.distribution.V': varf},
+                             what='one diagonal entry; `self.link.gradient(·, dist)` ↦ `linkGrad`, `self.distribution.V` ↦ `V`'))
+    specs.append(FormulaSpec('W_ExpectileGAM', 'gam', ('pygam.py', 'ExpectileGAM', '_W', None),
+                             pre=[('linkGrad', 'α → α'), ('V', 'α → α'), ('expectile', 'α')], params=['S', 'S', 'S'], attrs=gam_attrs,
+                             callees={'self.link.gradient': grad, 'self.distribution.V': varf},
+                             what='one diagonal entry; `self.link.gradient(·, dist)` ↦ `linkGrad`, `self.distribution.V` ↦ `V`'))
+    specs.append(FormulaSpec('pseudo_data', 'gam', ('pygam.py', 'GAM', '_pseudo_data', None),
+                             pre=[('linkGrad', 'α → α')], params=['S', 'S', 'S'], attrs=gam_attrs,
+                             callees={'self.link.gradient': grad},
+                             what='one entry; `self.link.gradient(·, dist)` ↦ `linkGrad`'))
+    specs.append(FormulaSpec('estimate_AIC', 'gam', ('pygam.py', 'GAM', '_estimate_AIC', None),
+                             pre=[('loglikelihood', '(%s) → (%s) → (%s) → α' % (vec, vec, vec)), ('known_scale', 'Bool'), ('edof', 'α')],
+                             params=['V', 'V', 'V'], attrs=gam_attrs, callees={'self._loglikelihood': ll},
+                             what='`self._loglikelihood(y, mu, weights)` ↦ `loglikelihood`, `self.statistics_[\'edof\']` ↦ `edof`'))
+    specs.append(FormulaSpec('estimate_AICc', 'gam', ('pygam.py', 'GAM', '_estimate_AICc', None),
+                             pre=[('aic', 'α'), ('edof', 'α')], params=['V', 'V', 'V'], attrs=gam_attrs, callees={},
+                             what='`self.statistics_[\'AIC\']` ↦ `aic`, `self.statistics_[\'edof\']` ↦ `edof`'))
+    specs.append(FormulaSpec('estimate_r2', 'gam', ('pygam.py', 'GAM', '_estimate_r2', None),
+                             pre=[('deviance', 'α → α → α → Bool → α'), ('loglikelihood', '(%s) → (%s) → (%s) → α' % (vec, vec, vec)), ('edof', 'α')],
+                             params=['X', 'V', 'V', 'V'], attrs=gam_attrs,
+                             callees={'self._loglikelihood': ll, 'self.distribution.deviance': dev},
+                             what='`self.distribution.deviance(y, mu, weights, scaled)` ↦ `deviance` (entrywise), '
+                                  '`self._loglikelihood` ↦ `loglikelihood`; returns (explained_deviance, McFadden, McFadden_adj)'))
+    specs.append(FormulaSpec('estimate_GCV_UBRE', 'gam', ('pygam.py', 'GAM', '_estimate_GCV_UBRE', None),
+                             pre=[('linkInv', 'α → α'), ('deviance', 'α → α → α → Bool → α'), ('known_scale', 'Bool'), ('scale', 'α'),
+                                  ('edof', 'α'), ('lp', vec)],
+                             params=['X', 'V', 'X', 'S', 'B', 'V'], attrs=gam_attrs,
+                             callees={'self._linear_predictor': dict(kind='value', t='V', lean='lp'), 'self.link.mu': linv,
+                                      'self.distribution.deviance': dev},
+                             what='`self._linear_predictor(modelmat)` ↦ `lp`, `self.link.mu(·, dist)` ↦ `linkInv`, '
+                                  '`self.distribution.deviance(y, mu, weights, scaled)` ↦ `deviance` (entrywise); returns (GCV, UBRE)'))
+    return specs
+
+
+def formulas_text(trees):
+    L = []
+    L.append('import PyGam.Model.Vec')
+    L.append('import PyGam.Model.Links')
+    L.append('import PyGam.Model.Dists')
+    L.append('/-! GENERATED by tools/translate.py from %s — do not edit.  Regenerated on every check run.' % os.path.join(REPO, 'pygam'))
+    L.append('')
+    L.append('The straight-line arithmetic functions of pyGAM, translated from the abstract syntax tree of the current source (nothing')
+    L.append('is imported or executed): one definition per source function, generic over the notation classes of the hand-written')
+    L.append('models.  `Props/C01, C06, C07, C08, C18` prove (`gen_formula_*`) that each of them IS the model definition.')
+    L.append('Rules: `x ** -1, -2, -3, -0.5, 0.5, 2, 3` ↦ `1/x, 1/(x*x), 1/(x*x*x), 1/sqrt x, sqrt x, x*x, x*x*x`; the literal `2` ↦ `1 + 1`;')
+    L.append('`np.asarray`, `.astype`, `sp.sparse.diags` ↦ identity; `np.ones_like` ↦ `1`; locals are inlined; `a > b` ↦ `b < a`; a Bool used')
+    L.append('as a number ↦ `if c then 1 else 0`; `np.sum` / `.sum()` ↦ `sumTo n`, `len` / `.shape[0]` ↦ `natTo n`.')
+    L.append('A function outside the supported subset becomes a `Gen.Untranslatable` (with the reason): its tie theorem then fails to build. -/')
+    L.append('set_option linter.unusedVariables false')
+    L.append('namespace PyGam.Gen')
+    L.append('')
+    L.append('/-- placeholder for a source function the translator could not translate; `reason` (part of the type, so that it shows')
+    L.append('in the type-mismatch error of the broken tie theorem) says why -/')
+    L.append('structure Untranslatable (reason : String) : Type where')
+    L.append('')
+    specs = formula_specs(trees)
+    decorators = []
+    cur = None
+    problems = []
+    for spec in specs:
+        if spec.ctx != cur and FORMULA_VARIABLES[spec.ctx] != FORMULA_VARIABLES.get(cur):
+            if cur is not None:
+                L.append('end')
+                L.append('')
+            L.append('section')
+            L.append(FORMULA_VARIABLES[spec.ctx])
+            L.append('')
+        cur = spec.ctx
+        fn, label, decos = locate_function(trees, spec.locate)
+        fname = spec.locate[0]
+        if fn is None:
+            L.append('/-- NOT TRANSLATED: %s -/' % _doc(label))
+            L.append('def %s : Untranslatable %s := {}' % (spec.name, lstr(label)))
+            L.append('')
+            problems.append('%s: %s' % (spec.name, label))
+            continue
+        where = 'pygam/%s:%d-%d' % (fname, fn.lineno, fn.end_lineno)
+        if spec.locate[3] is None and spec.locate[1] is not None and spec.ctx == 'dists' and spec.locate[2] in ('V', 'deviance'):
+            decorators.append((spec.name, decos))
+        tr = FormulaTranslator(spec, fn)
+        if spec.locate[3] is not None:
+            # the wrapped function (the decorator's parameter) is called as  wrapped(self, …, **kwargs)
+            wrapped = getattr(fn, '_wrapped_name', None)
+            spec.callees = {wrapped: spec.callees['@wrapped']}
+        try:
+            binders, ty, body = tr.translate()
+        except Unsupported as e:
+            reason = '%s (%s): %s' % (label, where, e)
+            L.append('/-- NOT TRANSLATED: %s -/' % _doc(reason))
+            L.append('def %s : Untranslatable %s := {}' % (spec.name, lstr(reason)))
+            L.append('')
+            problems.append('%s: %s' % (spec.name, reason))
+            continue
+        except Exception as e:      # never let a source the translator does not understand stop the run
+            reason = '%s (%s): translator error %s: %s' % (label, where, type(e).__name__, e)
+            L.append('/-- NOT TRANSLATED: %s -/' % _doc(reason))
+            L.append('def %s : Untranslatable %s := {}' % (spec.name, lstr(reason)))
+            L.append('')
+            problems.append('%s: %s' % (spec.name, reason))
+            continue
+        doc = '`%s` — %s' % (label, where)
+        if spec.what:
+            doc += '.  ' + spec.what
+        keys = getattr(tr, 'record_keys', None)
+        if keys:
+            doc += '.  Record keys in order: ' + ', '.join(keys)
+        if tr.notes:
+            doc += '.  ' + '; '.join(tr.notes)
+        L.append('/-- %s -/' % _doc(doc))
+        L.append('def %s %s : %s :=' % (spec.name, _group_binders(binders), ty))
+        L.append('  ' + body)
+        L.append('')
+    if cur is not None:
+        L.append('end')
+        L.append('')
+    L.append('/-- decorators of the `V` / `deviance` methods as written in the source (`multiply_weights`, `divide_weights` above) -/')
+    L.append('def methodDecorators : List (String × List String) :=')
+    L.append('  [' + ',\n   '.join('(%s, [%s])' % (lstr(nm), ', '.join(lstr(d) for d in ds)) for nm, ds in decorators) + ']')
+    L.append('')
+    L.append('end PyGam.Gen')
+    return '\n'.join(L) + '\n', problems
+
+
+def formulas_main():
+    trees = {}
+    for name in ('links.py', 'distributions.py', 'pygam.py'):
+        try:
+            trees[name] = parse(name)
+        except Exception as e:      # unreadable / syntactically broken source: every definition becomes a placeholder
+            trees[name] = None
+            print('translate: cannot parse pygam/%s: %s' % (name, e))
+    text, problems = formulas_text(trees)
+    for p in problems:
+        print('translate: NOT TRANSLATED', p)
+    os.makedirs(os.path.dirname(OUT_FORMULAS), exist_ok=True)
+    old = open(OUT_FORMULAS).read() if os.path.exists(OUT_FORMULAS) else None
+    if old != text:
+        with open(OUT_FORMULAS, 'w') as fh:
+            fh.write(text)
+        print('translate: wrote', os.path.relpath(OUT_FORMULAS, HERE))
+    return 0
+
+
+def main():
+    rc = tables_main()
+    rc2 = formulas_main()
+    return rc or rc2
 
 
 if __name__ == '__main__':
